@@ -36,6 +36,9 @@ pub enum St {
     Enc { k: usize, m: usize, transport: Option<Codec> },
     /// sum of the first `n` ciphertexts (prefix sums) via the Add/AddAssign impl #`via`
     Sum { k: usize, n: usize, via: usize },
+    /// three ciphertexts with blinders b, -b, d sealed through the trait function, summed through impl #`via`
+    /// in the order given by `order` (0: (a+b)+c, 1: a+(b+c), 2: (a+c)+b)
+    Cancel { k: usize, via: usize, order: u8 },
     /// pair sum c_i + c_j
     Pair { k: usize, i: usize, j: usize },
     /// decryption key recombined from shares (split #i, subset mask)
@@ -121,6 +124,11 @@ impl<C: Suite> Model for M14<C> {
                 v.push(St::Proof { k, m, dev: None });
             }
             v.push(St::Sum { k, n: 1, via: 0 });
+            for via in 0..6 {
+                for order in 0..3u8 {
+                    v.push(St::Cancel { k, via, order });
+                }
+            }
             for i in 0..NSUM {
                 for j in i + 1..NSUM {
                     v.push(St::Pair { k, i, j });
@@ -279,6 +287,47 @@ impl<C: Suite> Model for M14<C> {
                 let ok = pt(&d) == self.ref_point(&ms);
                 o.outcome(if ok { "sum:homomorphic" } else { "sum:wrong" });
                 o.expect(&format!("C14:sum-decrypts-to-sum:{}:impl{}", g, via), ok, "sum of plaintexts times the generator", "differs");
+            }
+            St::Cancel { k, via, order } => {
+                use rand_core::SeedableRng;
+                let pk = self.sks[*k].public_key();
+                let b = self.plains[4].0;
+                let d = self.plains[3].0;
+                let blinders = [b, -b, d];
+                let ms = [5usize, 6, 7];
+                let mut cts = vec![];
+                for (m, bl) in ms.iter().zip(blinders) {
+                    let r = <C as BlsElGamal>::seal_scalar(pk.0, self.plains[*m].0, None, Some(bl), rand_chacha::ChaCha20Rng::from_seed([14u8; 32]));
+                    match r {
+                        Ok((c1, c2)) => cts.push(ElGamalCiphertext::<C> { c1, c2 }),
+                        Err(e) => {
+                            o.expect(&format!("C14:seal-with-chosen-blinder:{}", g), false, "Ok", &e.to_string());
+                            return;
+                        }
+                    }
+                }
+                let add = |x: ElGamalCiphertext<C>, y: ElGamalCiphertext<C>| -> ElGamalCiphertext<C> {
+                    let mut acc = x;
+                    match via {
+                        0 => acc = acc + y,
+                        1 => acc = &acc + &y,
+                        2 => acc = acc + &y,
+                        3 => acc = &acc + y,
+                        4 => acc += y,
+                        _ => acc += &y,
+                    }
+                    acc
+                };
+                let (x, y, z) = (cts[0], cts[1], cts[2]);
+                let sum = match order {
+                    0 => add(add(x, y), z),
+                    1 => add(x, add(y, z)),
+                    _ => add(add(x, z), y),
+                };
+                o.calls(5);
+                let ok = pt(&sum.decrypt(&self.sks[*k])) == self.ref_point(&ms);
+                o.outcome(if ok { "sum:homomorphic" } else { "sum:wrong" });
+                o.expect(&format!("C14:sum-with-cancelling-blinders:{}:impl{}:order{}", g, via, order), ok, "sum of plaintexts times the generator", "differs");
             }
             St::Pair { k, i, j } => {
                 let a = self.enc(*k, 5 + i);
@@ -478,6 +527,7 @@ fn depth_of<C: Suite>(_m: &M14<C>, s: &St) -> usize {
     match s {
         St::Enc { transport, .. } => transport.is_some() as usize,
         St::Sum { n, via, .. } => n - 1 + (*via != 0) as usize,
+        St::Cancel { .. } => 0,
         St::Pair { .. } => 0,
         St::Shares { mask, fault, .. } => mask.count_ones() as usize + fault.is_some() as usize,
         St::SharesBig { .. } => 0,
